@@ -8,6 +8,7 @@
 Dict field.
 """
 import copy
+from collections.abc import Mapping
 from typing import Any, Dict, List, Optional, Sequence, Tuple, TypeVar, Union
 
 from ..core import AnyField, Config, Field, ValidationError
@@ -18,7 +19,7 @@ KeyValuePairs = Union[Dict[Any, Any], Sequence[Tuple[Any, Any]]]
 
 
 def _iterate_dict_like(iterable: KeyValuePairs) -> List[Tuple[Any, Any]]:
-    if isinstance(iterable, dict):
+    if isinstance(iterable, Mapping):
         return list(iterable.items())
     return list(iterable)
 
